@@ -485,6 +485,27 @@ def replayCalls {σ : Type} (step : σ → Call → Resp × σ) : σ → List (C
 
 def showResp : Resp → String | none => "-" | some d => toString d
 
+/-- replay a leaf on the `PIter` machine and report which paths of `postingsIterator.Next/Advance` ran -/
+def replayLeaf (s : PIter) (evs : List (Call × Resp)) : Option (Nat × Resp × Resp) × List String :=
+  let rec go (s : PIter) (es : List (Call × Resp)) (i : Nat) (brs : List String) : Option (Nat × Resp × Resp) × List String :=
+    match es with
+    | [] => (none, brs)
+    | (c, r) :: rest =>
+      let (m, s') := s.step c
+      let brs := match c with
+        | .next =>
+          if s'.segOff > s.segOff && m.isSome then brs ++ ["leaf-next-falls-through-exhausted-segment"] else brs
+        | .adv n =>
+          let restarted := s.kind != .all && s.started && decide (n ≤ s.curr)
+          brs ++ (if restarted then [if s.kind == .unadorned then "leaf-restart-unadorned" else "leaf-restart"] else []) ++
+            (if s'.segOff > s.segOff + 1 || (s'.segOff > s.segOff && s.segs.length > 1) then ["leaf-advance-jumps-to-later-segment"] else []) ++
+            (match segIndexOf ((s.advStart n).segs.map (·.off)) n, m with
+             | some k, some _ => if s'.segOff > k then ["leaf-advance-falls-through-to-next"] else []
+             | _, _ => [])
+      if m == r then go s' rest (i + 1) brs else (some (i, m, r), brs)
+  let (r, brs) := go s evs 0 []
+  (r, brs.eraseDups)
+
 /-- `Min()` of a real node -/
 partial def TNode.minOf (t : TNode) : Nat :=
   match t.kind with
@@ -509,6 +530,10 @@ structure ReplayCtx where
   idx : Index
   bound : Nat
   events : List (Nat × List (Call × Resp))
+  /-- the documents the filter of the query's only geo leaf accepts, as the SPECIFICATION says (present
+  when the query has exactly one geo leaf and no document lies near its edge); otherwise a filter node is
+  replayed with the documents it was seen to accept -/
+  geoAcc : Option (List Nat) := none
 
 def ReplayCtx.evs (c : ReplayCtx) (id : Nat) : List (Call × Resp) :=
   match c.events.find? (·.1 == id) with | some e => e.2 | none => []
@@ -549,7 +574,7 @@ def replayNode (c : ReplayCtx) (t : TNode) : Option String × List String :=
   | "filt" =>
     match kids with
     | [k] =>
-      let acc := answersOf evs
+      let acc := match c.geoAcc with | some a => a | none => answersOf evs
       -- branch: an Advance whose target the filter rejected, with the child's next candidate rejected too
       let rec walk (s : Filt Script) (es : List (Call × Resp)) (i : Nat) (brs : List String) :
           Option (Nat × Resp × Resp) × Filt Script × List String :=
@@ -565,7 +590,7 @@ def replayNode (c : ReplayCtx) (t : TNode) : Option String × List String :=
             | .next => brs
           if m == r then walk s' rest (i + 1) brs else (some (i, m, r), s', brs)
       let (r, s, brs) := walk ⟨k, acc⟩ evs 0 []
-      (report "filt" r s.kid.done, ["replay-filt"] ++ brs.eraseDups)
+      (report "filt" r s.kid.done, ["replay-filt"] ++ (if c.geoAcc.isSome then ["replay-filt-with-spec-predicate"] else []) ++ brs.eraseDups)
     | _ => (some s!"node={t.id} filt-without-child", [])
   | "phrase" =>
     match kids with
@@ -581,8 +606,8 @@ def replayNode (c : ReplayCtx) (t : TNode) : Option String × List String :=
   | "none" =>
     (if evs.all (fun e => e.2.isNone) then none else some s!"node={t.id} kind=none answered-a-document", ["replay-none"])
   | "all" =>
-    let (r, _) := replayCalls PIter.step (PIter.mk' c.sn .all (allDocs c.idx)) evs 0
-    (report "all" r true, ["replay-leaf-all"])
+    let (r, lbrs) := replayLeaf (PIter.mk' c.sn .all (allDocs c.idx)) evs
+    (report "all" r true, ["replay-leaf-all"] ++ lbrs)
   | "term" =>
     match t.args with
     | "p" :: f :: term :: segsS =>
@@ -598,8 +623,8 @@ def replayNode (c : ReplayCtx) (t : TNode) : Option String × List String :=
           let sound := segs.all fun g => g.it.toList.all (fun y => g.fresh.contains y)
           if !sound then (some s!"node={t.id} kind=term per-segment-iterator-holds-a-document-that-is-not-a-live-posting-of-{term}", []) else
           let m : PIter := { kind := .postings, segs := segs, segOff := 0, started := false, curr := 0 }
-          let (r, _) := replayCalls PIter.step m evs 0
-          (report "term" r true, ["replay-leaf-postings"] ++ (if narrowed then ["leaf-narrowed"] else []) ++
+          let (r, lbrs) := replayLeaf m evs
+          (report "term" r true, ["replay-leaf-postings"] ++ lbrs ++ (if narrowed then ["leaf-narrowed"] else []) ++
             (if its.any (fun x => match x.2 with | .oneHit _ => true | _ => false) then ["replay-leaf-postings-1hit"] else []) ++
             (if evs.any (fun e => match e.1 with | .adv _ => true | .next => false) then ["replay-leaf-postings-advance"] else []))
         | none => (none, ["replay-leaf-skipped"])
@@ -613,8 +638,8 @@ def replayNode (c : ReplayCtx) (t : TNode) : Option String × List String :=
         if its.length != c.sn.length then (some s!"node={t.id} unadorned-leaf-segment-count", []) else
         let segs : List PSeg := (c.sn.zip its).map fun (e, x) => { off := e.1, fresh := x.1, it := x.2 }
         let m : PIter := { kind := .unadorned, segs := segs, segOff := 0, started := false, curr := 0 }
-        let (r, _) := replayCalls PIter.step m evs 0
-        (report "term-unadorned" r true, ["replay-leaf-unadorned"] ++
+        let (r, lbrs) := replayLeaf m evs
+        (report "term-unadorned" r true, ["replay-leaf-unadorned"] ++ lbrs ++
           (if its.any (fun x => match x.2 with | .oneHit _ => true | _ => false) then ["replay-leaf-unadorned-1hit"] else []))
       | none => (none, ["replay-leaf-skipped"])
     | _ => (none, ["replay-leaf-skipped"])
@@ -631,29 +656,52 @@ def textLeaf (c : ReplayCtx) (t : TNode) : Option (TNode × List Nat × List (Li
     else none
   | _, _ => none
 
+/-- through the "wrapper around a single Optimizable child" disjunctions (search_disjunction_slice.go
+`Optimize`: a disjunction with exactly one child hands the optimisation to it) -/
+partial def throughWrappers (t : TNode) : TNode :=
+  match t.kind, t.kids with
+  | "disjS", [some k] => throughWrappers k
+  | "disjH", [some k] => throughWrappers k
+  | _, _ => t
+
 /-- the push-down conjunction optimisation (index/optimize.go `optimizeConjunction.Finish`) replaces the
-per-segment bitmaps of the term searchers of an all-term conjunction by their AND. Checked on the real
-contents: a narrowed leaf occurs only directly under a conjunction, and what it still holds contains
-every document that all the conjunction's text-term children have (nothing the conjunction needs is lost). -/
-def narrowingErrors (c : ReplayCtx) (t : TNode) : List String :=
+per-segment bitmaps of the term searchers of an all-term conjunction (terms possibly wrapped in
+single-child disjunctions) by their AND. Checked on the real contents: a narrowed leaf occurs only as such a
+participant of a conjunction (`allowed`), and — when all participants are text terms, whose postings the
+model knows — what a leaf still holds contains every document that all participants have (nothing the
+conjunction needs is lost). -/
+partial def narrowingErrors (c : ReplayCtx) (t : TNode) (allowed : Bool) : List String :=
   let kids := t.kids.filterMap id
-  let leaves := kids.filterMap (textLeaf c)
   let isNarrowed (l : TNode × List Nat × List (List Nat)) : Bool :=
     (c.sn.zip l.2.2).any fun (e, have_) => have_ != localsOf l.2.1 e.1 e.2
-  if t.kind == "conj" then
-    if leaves.length != kids.length then [] else
-    -- per segment: the intersection of the own postings must survive in every child
+  let here : List String :=
+    match textLeaf c t with
+    | some l => if isNarrowed l && !allowed then [s!"node={t.id} postings-leaf-narrowed-outside-a-conjunction"] else []
+    | none => []
+  let conjCheck : List String :=
+    if t.kind != "conj" then [] else
+    let parts := kids.map throughWrappers
+    let leaves := parts.filterMap (textLeaf c)
+    if leaves.length != parts.length then [] else
     let inter : List Nat := match leaves with
       | [] => []
       | l :: ls => l.2.1.filter fun x => ls.all (fun m => m.2.1.contains x)
     leaves.filterMap fun l =>
       let ok := (c.sn.zip l.2.2).all fun (e, have_) => (localsOf inter e.1 e.2).all (fun y => have_.contains y)
       if ok then none else some s!"node={l.1.id} conjunction-push-down-lost-a-common-document"
-  else
-    leaves.filterMap fun l =>
-      if isNarrowed l then some s!"node={l.1.id} postings-leaf-narrowed-outside-a-conjunction" else none
+  let kidAllowed : Bool :=
+    if t.kind == "conj" then true
+    else if (t.kind == "disjS" || t.kind == "disjH") && kids.length == 1 then allowed
+    else false
+  here ++ conjCheck ++ kids.flatMap (fun k => narrowingErrors c k kidAllowed)
 
-def traceStep (st : DState) (impl : String) : String :=
+partial def geoLeaves : Query → List Query
+  | .geoBox f a b c d => [.geoBox f a b c d]
+  | .geoDist f a b c => [.geoDist f a b c]
+  | .bool ms ss ns _ => (ms ++ ss ++ ns).flatMap geoLeaves
+  | _ => []
+
+def traceStep (st : DState) (qe : Option SExp) (impl : String) : String :=
   match st.layout with
   | none => impl ++ sep ++ "na br=replay-no-layout"
   | some l =>
@@ -663,9 +711,18 @@ def traceStep (st : DState) (impl : String) : String :=
       | some (e, []), some events =>
         match toTNode e 0 with
         | some (root, _) =>
-          let c : ReplayCtx := { sn := layoutSn l, idx := st.index, bound := st.bound, events := events }
+          let idx := st.index
+          let geoAcc : Option (List Nat) :=
+            match qe.bind parseQuery with
+            | some (q, _) =>
+              match geoLeaves q with
+              | [g] => if idx.any (fun e => geoNear e.2 g) then none
+                       else some ((idx.filter (fun e => sat e.2 g)).map (·.1))
+              | _ => none
+            | none => none
+          let c : ReplayCtx := { sn := layoutSn l, idx := idx, bound := st.bound, events := events, geoAcc := geoAcc }
           let results := root.all.map (replayNode c)
-          let errs := results.filterMap (·.1) ++ root.all.flatMap (narrowingErrors c)
+          let errs := results.filterMap (·.1) ++ narrowingErrors c root false
           let brs := (results.flatMap (·.2)).eraseDups
           -- the documents the collector received are the answers of the root
           let top := (c.evs 0).filterMap (·.2)
@@ -716,7 +773,10 @@ def c07step (st : DState) (op : String) (impl : String) : DState × String :=
   match ws with
   | "case" :: _ => (DState.empty, "ok" ++ sep ++ "na")
   | ["snap"] => snapStep st impl
-  | "trace" :: _ => (st, traceStep st impl)
+  | "trace" :: mode :: _ =>
+    let rest := (op.drop (6 + mode.length + 1)).toString
+    let qe := match parseSExp (tokenize rest) with | some (e, []) => some e | _ => none
+    (st, traceStep st qe impl)
   | ["seg"] => (st.flush, "ok" ++ sep ++ "na")
   | "ins" :: id :: fs => ({ st with pendAdd := parseDoc id fs :: st.pendAdd }, "ok" ++ sep ++ "na")
   | "upd" :: id :: fs => ({ st with pendDel := id :: st.pendDel, pendAdd := parseDoc id fs :: st.pendAdd }, "ok" ++ sep ++ "na")
